@@ -345,6 +345,45 @@ func init() {
 		i.now++
 		return nil
 	}
+	// time.Time comparisons: sec()/nsec() are the real methods; only the
+	// short-circuit combination "ts > us || ts == us && tn > un" of time.go is
+	// evaluated as one term instead of three paths.
+	timeCmp := func(op string) handler {
+		return func(fr *frame, args []value) value {
+			i := fr.i
+			tp := fr.fn.Signature.Recv().Type()
+			ptrT := types.NewPointer(tp)
+			pkg := i.sh.Pkgs["time"].Pkg
+			secFn := i.prog.LookupMethod(ptrT, pkg, "sec")
+			nsecFn := i.prog.LookupMethod(ptrT, pkg, "nsec")
+			t, u := args[0], args[1]
+			tw, uw := t.(structure)[0], u.(structure)[0]
+			_, c1 := tw.(uint64)
+			_, c2 := uw.(uint64)
+			if c1 && c2 && tw.(uint64)&uw.(uint64)&hasMonotonicBit != 0 {
+				panic(unsupported("time comparison with monotonic readings"))
+			}
+			tc, uc := value(t), value(u)
+			ts := call(i, fr, 0, secFn, []value{&tc})
+			us := call(i, fr, 0, secFn, []value{&uc})
+			tn := call(i, fr, 0, nsecFn, []value{&tc})
+			un := call(i, fr, 0, nsecFn, []value{&uc})
+			i64 := types.Typ[types.Int64]
+			i32 := types.Typ[types.Int32]
+			eqS := i.term(binop(i, token.EQL, i64, ts, us))
+			switch op {
+			case "After":
+				return fromBoolTerm(i.cx.Or(i.term(binop(i, token.GTR, i64, ts, us)), i.cx.And(eqS, i.term(binop(i, token.GTR, i32, tn, un)))))
+			case "Before":
+				return fromBoolTerm(i.cx.Or(i.term(binop(i, token.LSS, i64, ts, us)), i.cx.And(eqS, i.term(binop(i, token.LSS, i32, tn, un)))))
+			default:
+				return fromBoolTerm(i.cx.And(eqS, i.term(binop(i, token.EQL, i32, tn, un))))
+			}
+		}
+	}
+	stubs["(time.Time).After"] = timeCmp("After")
+	stubs["(time.Time).Before"] = timeCmp("Before")
+	stubs["(time.Time).Equal"] = timeCmp("Equal")
 	stubs["math/rand.NewSource"] = func(fr *frame, args []value) value { return iface{} }
 	stubs["math/rand.New"] = func(fr *frame, args []value) value {
 		v := zero(mustDeref(fr.fn.Signature.Results().At(0).Type()))
